@@ -34,7 +34,8 @@ func focusSection(r *vlib.Run) {
 				rad = math.Exp(math.Log(1e-2) + rng.Float64()*math.Log(1e4))
 			}
 			center := randPoint(rng, rad*3)
-			rel := []float64{1e-4, 1e-2, 0.1, 0.5, 1, 3, 10, 100, 999}[rng.Intn(9)]
+			// up to 1e5 radii away: a small lamp across a large scene subtends a cone of 1e-5 rad
+			rel := []float64{1e-4, 1e-2, 0.1, 0.5, 1, 3, 10, 100, 999, 3e3, 1e4, 1e5}[rng.Intn(12)]
 			if rng.Intn(3) == 0 {
 				rel = math.Exp(math.Log(1e-4) + rng.Float64()*math.Log(1e7))
 			}
@@ -80,6 +81,9 @@ func focusSection(r *vlib.Run) {
 			}
 			checkDirectional(c, dc, nSamples)
 			c.Count("focus.sphere.focused_cases", 1)
+			if d/rad > 7e3 {
+				c.Count("focus.sphere.cone_below_1e-8_in_1_minus_cos", 1)
+			}
 			if rad != 1 {
 				c.Count("focus.sphere.radius_not_one", 1)
 			}
